@@ -402,7 +402,7 @@ def judge_formula(case) -> Outcome:
         try:
             n = len(model)
             if op == "insert":
-                i = int(r * (n + 1))
+                i = int(r * (2 * n + 5)) - (n + 2)  # negative and out-of-range positions too (list.insert semantics)
                 t = mk_term(arg)
                 f.insert(i, t)
                 model.insert(i, t)
@@ -411,12 +411,12 @@ def judge_formula(case) -> Outcome:
                 f.append(t)
                 model.append(t)
             elif op == "set" and n:
-                i = int(r * n)
+                i = int(r * 2 * n) - n  # negative indices too
                 t = mk_term(arg)
                 f[i] = t
                 model[i] = t
             elif op == "del" and n:
-                i = int(r * n)
+                i = int(r * 2 * n) - n
                 del f[i]
                 del model[i]
             elif op == "slice_del" and n:
